@@ -564,6 +564,18 @@ func (w *world) finish(c *call) {
 			w.failf("C19: request %q (%s on %s slot %d seq %d) was answered %s, expected a SEQUENCE failing with %s", c.desc, c.class, c.sess, c.slot, c.seq, statusOf(res), shortStatus(c.expStatus))
 		}
 		w.label("seq_error:" + shortStatus(c.expStatus))
+		if c.expStatus == nfsv4.NFS4ERR_SEQ_MISORDERED && int(c.slot) < len(c.sess.slots) {
+			if sl := c.sess.slots[c.slot]; sl.preset {
+				switch {
+				case straddles(c.seq, sl.lastSeq), straddles(c.seq, sl.lastSeq+1):
+					// The rejected sequence ID lies on the other side of
+					// 2^32 from the slot's last or next one.
+					w.label("misordered_at_wrap_around")
+				case c.seq == sl.lastSeq && (c.seq == maxU32 || c.seq == 0):
+					w.label("retransmission_without_cached_reply_at_wrap_around")
+				}
+			}
+		}
 	case "stale_busy":
 		if !isSeqError(res, nfsv4.NFS4ERR_SEQ_MISORDERED) {
 			ok := false
@@ -593,8 +605,14 @@ func (w *world) setOutFor(c *call, out string) {
 
 func (w *world) finishCached(c *call) {
 	res, orig := c.res, c.orig
+	// The slot's last sequence ID is 2^32-1 (the next one is 0) or 0 (the
+	// previous one was 2^32-1).
+	atWrap := c.sess.slots[c.slot].preset && (c.seq == maxU32 || c.seq == 0)
 	if c.mayFalse {
 		// Same slot and sequence ID, different operation list.
+		if atWrap {
+			w.label("false_retry_at_wrap_around")
+		}
 		if isSeqError(res, nfsv4.NFS4ERR_SEQ_FALSE_RETRY) {
 			w.label("false_retry_rejected")
 			return
@@ -616,6 +634,9 @@ func (w *world) finishCached(c *call) {
 		w.failf("C19: the retransmission of %q, sent with sa_cachethis, was not answered from the cache", orig.desc)
 	}
 	w.label("replay_" + how)
+	if atWrap {
+		w.label("replay_at_wrap_around")
+	}
 	if orig.res.Status == nfsv4.NFS4_OK && orig.t != nil && orig.t.stateOp && how == "equal" {
 		w.label("replay_of_successful_state_op")
 		w.label("replay_of_successful:" + orig.t.kind)
@@ -633,6 +654,10 @@ func (w *world) finishExec(c *call) {
 	}
 	sl := c.sess.slots[c.slot]
 	sl.busy = nil
+	if c.seq < sl.lastSeq {
+		// Only reachable from a preset slot: 0 follows 2^32-1.
+		w.label("slot_sequence_wrapped")
+	}
 	sl.lastSeq = c.seq
 	sl.last = c
 
@@ -744,6 +769,9 @@ func (w *world) finishExec(c *call) {
 			w.label("false_retry_inflight_answered_with_original")
 		} else {
 			w.label("inflight_duplicate_completed_with_original")
+			if sl.preset && (c.seq == maxU32 || c.seq == 0) {
+				w.label("inflight_duplicate_at_wrap_around")
+			}
 		}
 	}
 }
